@@ -611,4 +611,18 @@ example : parseLql dpEx (printLql rdEx { select := some exS }) = some { select :
         exact ⟨fun v hv => by cases hv; exact hdr, fun v hv => by cases hv; exact hdr⟩,
       fun t ht => by cases ht⟩ (by unfold LexableLql; decide +kernel)
 
+/-! ## the printed form of an instant and the LQL date format list -/
+
+/-- **the date format list still has the formats the printed layout needs in every local zone**: `DateTime.String()` prints
+`2006-01-02 15:04:05.000000000 -0700 MST`; where the zone abbreviation is alphabetic (UTC, CET, PST) the text is read by
+`… ss.SSS ZZZZ ZZZ`, where it is numeric (`+04`, `-03`: Asia/Dubai, America/Sao_Paulo …) by `… ss.SSS ZZZZ` — without the
+latter the fraction-only format matches and the instant is read as UTC: the RANGE bound / BEFORE instant shifts by the zone
+offset although print and parse both succeed (seeded change C12-15). The list is a regenerated fact (`lqlDateFormats`); the
+semantics of the formats stays C20's side (`DateContract`), exercised per zone by the harness section `datecontract`. -/
+theorem printed_instant_formats_present :
+    Logrange.Generated.C12.dateLayout = txt "2006-01-02 15:04:05.000000000 -0700 MST" →
+    (Logrange.Generated.C12.lqlDateFormats.contains (txt "YYYY-MM-DD HH:mm:ss.SSS ZZZZ ZZZ") = true
+     ∧ Logrange.Generated.C12.lqlDateFormats.contains (txt "YYYY-MM-DD HH:mm:ss.SSS ZZZZ") = true) := by
+  decide +kernel
+
 end Logrange.Props.C12
